@@ -150,24 +150,28 @@ Inductive cursor := CAt (o : N) | CIn.
 Definition xinfo := (list xent * option obj * option N)%type.   (* XRefSectInfo *)
 
 (* ---------- parse_xref_stream (99-200) ---------- *)
-Definition parse_xref_stream (f : file) (c : ctx) (cur : cursor) : ctx * cursor * option xinfo :=
+(* Since commit 4807949 the xref-stream object is parsed by IndirectP in a PDFObjContext OF ITS OWN
+   (empty): walking the chain defines nothing in the document context.  (On the pinned tree it was
+   registered there, which made it win over a newer redefinition of its id.)  Consequences kept
+   literally: a referenced /Length can never be resolved here (IR_ctx), a duplicate is impossible. *)
+Definition parse_xref_stream (f : file) (cur : cursor) : cursor * option xinfo :=
   match cur with
-  | CIn => (c, CIn, None)
+  | CIn => (CIn, None)
   | CAt o =>
     match find f o with
-    | None => (c, CIn, None)
+    | None => (CIn, None)
     | Some (it, nx) =>
-      match indirect c it with
-      | IR_ok c' _ v =>
+      match indirect [] it with
+      | IR_ok _ _ v =>
         match it with
-        | IXStm _ ents root prev => (c', CAt nx, Some (ents, root, prev))
+        | IXStm _ ents root prev => (CAt nx, Some (ents, root, prev))
         | _ => if is_stream v
-               then (c', CAt nx, None)                     (* XrefStreamP: /Type is not /XRef *)
-               else (c', CAt nx, Some ([], None, None))    (* not a stream: empty info *)
+               then (CAt nx, None)                     (* XrefStreamP: /Type is not /XRef *)
+               else (CAt nx, Some ([], None, None))    (* not a stream: empty info *)
         end
-      | IR_dup c' => (c', CAt nx, None)
-      | IR_ctx => (c, CIn, None)
-      | IR_err => (c, CIn, None)
+      | IR_dup _ => (CAt nx, None)
+      | IR_ctx => (CIn, None)
+      | IR_err => (CIn, None)
       end
     end
   end.
@@ -175,27 +179,27 @@ Definition parse_xref_stream (f : file) (c : ctx) (cur : cursor) : ctx * cursor 
 (* ---------- parse_xref_section (207-314) ---------- *)
 Inductive xres :=
 | XRej                                              (* exit_log! *)
-| XRes (c : ctx) (cur : cursor) (x : option xinfo).
+| XRes (cur : cursor) (x : option xinfo).
 
-Definition parse_xref_section (f : file) (flen : N) (c : ctx) (start : N) : xres :=
+Definition parse_xref_section (f : file) (flen : N) (start : N) : xres :=
   match find f start with
   | Some (IXSect ents tr, nx) =>
     match tr with
-    | None => XRes c (CAt nx) (Some (ents, None, None))
+    | None => XRes (CAt nx) (Some (ents, None, None))
     | Some t =>
       match t_xrefstm t with
-      | None => XRes c (CAt nx) (Some (ents, t_root t, t_prev t))
+      | None => XRes (CAt nx) (Some (ents, t_root t, t_prev t))
       | Some xrstart =>
         if (xrstart <=? flen)%N                              (* pb.set_cursor(xrstart) *)
-        then match parse_xref_stream f c (CAt xrstart) with
-             | (c', cur', Some (xrents, _, _)) => XRes c' cur' (Some (ents ++ xrents, t_root t, t_prev t))
-             | (_, _, None) => XRej
+        then match parse_xref_stream f (CAt xrstart) with
+             | (cur', Some (xrents, _, _)) => XRes cur' (Some (ents ++ xrents, t_root t, t_prev t))
+             | (_, None) => XRej
              end
         else XRej
       end
     end
   | _ =>
-    let '(c', cur', x) := parse_xref_stream f c (CAt start) in XRes c' cur' x
+    let '(cur', x) := parse_xref_stream f (CAt start) in XRes cur' x
   end.
 
 (* ---------- get_xref_info (319-389) ---------- *)
@@ -217,23 +221,23 @@ Fixpoint merge_ents (ents : list xent) (idset : list N) : list N * list xent :=
 
 (* one loop iteration after the cycle / bounds tests: parse_xref_section, and parse_xref_stream
    once more FROM THE CURRENT CURSOR when that yields nothing; None = an exit_log! *)
-Definition step (f : file) (flen : N) (c : ctx) (next : N) : option (ctx * xinfo) :=
-  match parse_xref_section f flen c next with
+Definition step (f : file) (flen : N) (next : N) : option xinfo :=
+  match parse_xref_section f flen next with
   | XRej => None
-  | XRes c1 _ (Some x) => Some (c1, x)
-  | XRes c1 cur1 None =>
-    match parse_xref_stream f c1 cur1 with
-    | (c2, _, Some x) => Some (c2, x)
-    | (_, _, None) => None                                            (* No xref found *)
+  | XRes _ (Some x) => Some x
+  | XRes cur1 None =>
+    match parse_xref_stream f cur1 with
+    | (_, Some x) => Some x
+    | (_, None) => None                                               (* No xref found *)
     end
   end.
 
 Inductive wres :=
 | WRej
 | WFuel
-| WOk (c : ctx) (xrefs : list xent) (root : obj).
+| WOk (xrefs : list xent) (root : obj).
 
-Fixpoint walk (fuel : nat) (f : file) (flen : N) (c : ctx) (cursorset : list N) (idset : list N)
+Fixpoint walk (fuel : nat) (f : file) (flen : N) (cursorset : list N) (idset : list N)
          (xrefs : list xent) (root : option obj) (next : N) : wres :=
   match fuel with
   | O => WFuel
@@ -241,17 +245,17 @@ Fixpoint walk (fuel : nat) (f : file) (flen : N) (c : ctx) (cursorset : list N) 
     if mem_N next cursorset then WRej                               (* Xref cycle detected *)
     else if negb (next <? flen)%N then WRej                          (* out of bounds *)
     else
-      match step f flen c next with
+      match step f flen next with
       | None => WRej
-      | Some (c2, (ents, rt, prev)) =>
+      | Some (ents, rt, prev) =>
         let root' := match root with Some _ => root | None => rt end in
         match root' with
         | None => WRej                                               (* No Root specified *)
         | Some r =>
           let '(idset', kept) := merge_ents ents idset in
           match prev with
-          | None => WOk c2 (xrefs ++ kept) r
-          | Some p => walk fuel' f flen c2 (next :: cursorset) idset' (xrefs ++ kept) root' p
+          | None => WOk (xrefs ++ kept) r
+          | Some p => walk fuel' f flen (next :: cursorset) idset' (xrefs ++ kept) root' p
           end
         end
       end
@@ -389,11 +393,12 @@ Definition load_fuel (fuel : nat) (p : pdf) : outcome :=
     | Some sx =>
       if negb (sx <? p_flen p)%N then Rejected                       (* startxref out of bounds *)
       else
-        match walk fuel (p_file p) (p_flen p) [] [] [] [] None sx with
+        match walk fuel (p_file p) (p_flen p) [] [] [] None sx with
         | WRej => Rejected
         | WFuel => OutFuel
-        | WOk c xrefs root =>
-          match parse_objects (p_file p) (p_flen p) c (info_from_xref_entries xrefs) with
+        | WOk xrefs root =>
+          (* ctxt = PDFObjContext::new(50): nothing is defined before parse_objects *)
+          match parse_objects (p_file p) (p_flen p) [] (info_from_xref_entries xrefs) with
           | ORej => Rejected
           | OOk c' =>
             match root with
